@@ -59,18 +59,27 @@ func (f *formatValidator) Applies(source interface{}, kind reflect.Kind) bool {
 		return false
 	}
 
+	// The format this validator was built for takes precedence over the format of the source: when
+	// validating the items of a parameter or header, source is the enclosing parameter or header,
+	// whose format (usually none) is not the one of the items.
+	var format string
 	switch source := source.(type) {
 	case *spec.Items:
-		return kind == reflect.String && f.KnownFormats.ContainsName(source.Format)
+		format = source.Format
 	case *spec.Parameter:
-		return kind == reflect.String && f.KnownFormats.ContainsName(source.Format)
+		format = source.Format
 	case *spec.Schema:
-		return kind == reflect.String && f.KnownFormats.ContainsName(source.Format)
+		format = source.Format
 	case *spec.Header:
-		return kind == reflect.String && f.KnownFormats.ContainsName(source.Format)
+		format = source.Format
 	default:
 		return false
 	}
+	if f.Format != "" {
+		format = f.Format
+	}
+
+	return kind == reflect.String && f.KnownFormats.ContainsName(format)
 }
 
 func (f *formatValidator) Validate(val interface{}) *Result {
